@@ -33,6 +33,13 @@ Theorem C13_everyone_below : forall lvl c h s n x, wf c = true -> 3 <= lvl -> Re
 Proof. exact shutdown_complete. Qed.
 Print Assumptions C13_everyone_below.
 
+(* "received": a handler is never cancelled before its first step (FIFO of the loop), so a finished
+   handler is one that ran *)
+Theorem C13_never_cancelled_before_start : forall lvl c h s j s', wf c = true -> 3 <= lvl -> Reach lvl c h s ->
+  step lvl c s (EHGone j) = Some s' -> False.
+Proof. exact handler_never_gone. Qed.
+Print Assumptions C13_never_cancelled_before_start.
+
 (* (c) never while a job of the same scheduler is still running: when a handler starts, no job of
    its scheduler is live (created, running or being cancelled); monitor chk13_start *)
 Theorem C13_not_while_running : forall lvl c h0 s e s', wf c = true -> 3 <= lvl ->
